@@ -6,16 +6,16 @@ LEVEL = "model_checking"
 
 
 def obligations(tier):
-    obs = [Ob("C17.history.len1", "CH", "harness.h_chart", "history_free", 900, {"VF_HIST": 1, "VF_HLEN": 1},
+    obs = [Ob("C17.history.len1", "CH", "harness.h_hist", "history_free", 900, {"VF_HIST": 1, "VF_HLEN": 1},
               funcs=("chartparse.chart.Chart.from_file (whole pipeline, native execution)",),
-              bounds="every history of one earlier parse over a 7-text corpus (well-formed, other tempo map, other resolution, garbage/unknown sections, two ill-formed charts that fail to parse, a selection), then every text: identical to its parse as the first parse of a fresh interpreter"),
+              bounds="every history of one earlier parse over a 10-text corpus (well-formed, other tempo map, other resolution, garbage/unknown sections, two ill-formed charts that fail to parse, a selection), then every text: identical to its parse as the first parse of a fresh interpreter"),
            Ob("C17.dispatcher_history", "CH", "harness.h_track", "dispatcher_history", 600, funcs=("chartparse.track.parse_data_from_chart_lines",),
               bounds="two consecutive dispatches over the same line texts with independent symbolic acceptance patterns"),
            Ob("C17.lookup_twice", "CH", "harness.h_sync", "hint_invisible", 300, {"VF_K": 3}, funcs=("chartparse.sync.BPMEvents.timestamp_at_tick",),
               bounds="the same query twice on one tempo map gives the same answer (symbolic ticks)")]
     if tier == "thorough":
-        obs.append(Ob("C17.history.len2", "CH", "harness.h_chart", "history_free", 1800, {"VF_HIST": 1, "VF_HLEN": 2},
-                      funcs=("chartparse.chart.Chart.from_file",), bounds="every history of two earlier parses over the corpus (7^3 cases)"))
+        obs.append(Ob("C17.history.len2", "CH", "harness.h_hist", "history_free", 1800, {"VF_HIST": 1, "VF_HLEN": 2},
+                      funcs=("chartparse.chart.Chart.from_file",), bounds="every history of two earlier parses over the corpus (10^3 cases)"))
     return obs
 
 
@@ -24,10 +24,10 @@ LEVEL_TEXT = ("Only the *history* part of the statement is decided: CrossHair en
               "(full public observation and str()) to the parse of the same text as the very first parse of a fresh interpreter, which is "
               "computed in separate processes; plus symbolic two-call harnesses on the dispatcher and the tempo lookup.")
 LEVEL_NOTE = ("NOT decided: concurrent parses on other threads (CrossHair has no thread model; interleavings are outside the claim), histories "
-              "longer than 1 (quick) / 2 (thorough), texts outside the 7-text corpus. The parses in the history harness run natively because "
-              "every text is concrete on each path (CrossHair's own timedelta model differs from the interpreter's). Trusted: S1, S3, S4.")
+              "longer than 1 (quick) / 2 (thorough), texts outside the 10-text corpus. Every explored history runs in its own fresh interpreter "
+              "(native execution; the solver only chooses the history), so explored paths cannot influence each other. Trusted: S1, S3, S4.")
 TECHNIQUE = "CrossHair-enumerated bounded parse histories compared with fresh-interpreter parses; symbolic two-call harnesses"
 EXPLANATION = "see obligation_table; threads are outside the claim"
-BOUNDS = "histories of length <=1 (quick) / <=2 (thorough) over a 7-text corpus; 2 dispatches x 2 lines x 2 kinds"
+BOUNDS = "histories of length <=1 (quick) / <=2 (thorough) over a 10-text corpus; 2 dispatches x 2 lines x 2 kinds"
 OUTSIDE = "thread interleavings; longer histories; other texts"
 ASSUMPTIONS = [S1, S3, S4, "fresh-interpreter reference parses are computed by subprocesses of the same interpreter binary"]
